@@ -492,6 +492,9 @@ def random_astep(rng, level):
     g = gp = None
     if r < 0.3:
         g, gp = rng.random(), rng.random()
+        if rng.random() < 0.35:      # the optional global values at their range ends (0.0 is a value, not "absent")
+            g = rng.choice((0.0, 1.0, -0.0, 5e-324, g))
+            gp = rng.choice((0.0, 1.0, -0.0, gp))
     elif r < 0.36:
         g = rng.random()
     elif r < 0.42:
@@ -507,6 +510,11 @@ def adaptive_sweeps(ctx, batch):
         for b in edge + bad:
             for g in (None, 0.4):
                 check_adaptive(ctx, batch, {"op": "adaptive", "params": None, "steps": [[a, b, g, g], [0.5, 0.5, None, None]]})
+    # the optional global pair (NOTE 1 of clause 5.4): used when BOTH are given - also when a value is exactly 0.0 -
+    # and the local pair otherwise
+    for cl in (1.0, 0.5, 0.0):
+        for g, gp in ((0.0, 0.0), (0.0, 0.8), (0.8, 0.0), (1.0, 1.0), (0.0, None), (None, 0.0), (-0.0, 0.0), (5e-324, 0.0)):
+            check_adaptive(ctx, batch, {"op": "adaptive", "params": None, "steps": [[cl, cl, g, gp]] * 6 + [[cl, cl, None, None]] * 2})
     # steady loads: below, at and above the target, long enough to run into both clamps
     n = 400 if ctx.tier == "thorough" else 150
     for level in (0.0, 0.3, 0.6799, 0.68, 0.6801, 0.9, 1.0):
